@@ -3,6 +3,7 @@ a deliberately broken variant of the model that MUST be caught (vacuity guard), 
 of the specification to the code (MBT generation -> replay in the real code -> trace validation
 by TLC, and/or recorded executions -> trace validation)."""
 import json
+import re
 import os
 import time
 
@@ -146,6 +147,9 @@ def check_C06(ctx):
         log("DRIFT (mechanism differs from TokenStore.tla, no property involved): %d reports, first: %s"
             % (len(tv.drifts), tv.drifts[0]))
     tv_verdict(ctx, tv, trace, "token-store-mbt")
+    # wire level: get_peers / announce_peer against real serving nodes (tokens bound to the IP, 203 stores nothing)
+    parts, _ = run_node_scenarios(ctx, server_scenarios(ctx), ["C06"], "server")
+    node_verdict(ctx, parts, "server")
 
 
 # =========================================================================================== C07
@@ -253,6 +257,9 @@ def check_C07(ctx):
         log("DRIFT (mechanism differs from PeerStore.tla, no property involved): %d reports, first: %s"
             % (len(tv.drifts), tv.drifts[0]))
     tv_verdict(ctx, tv, trace, "peer-store-mbt")
+    # wire level: announced / implied port, family filter, error 202 on real serving nodes
+    parts, _ = run_node_scenarios(ctx, server_scenarios(ctx), ["C07"], "server")
+    node_verdict(ctx, parts, "server")
 
 
 # ================================================================================= C08 / C09 / C10
@@ -289,11 +296,34 @@ def gen_table_random(path, seed_, count, depth):
     rnd = random.Random(seed_)
     with open(path, "w") as f:
         for b in range(count):
+            flip = lambda s, i: s[:i] + ("1" if s[i] == "0" else "0") + s[i + 1:]
+            shape = ["deepest", "deep", "flat", "mixed", "deepest"][b % 5] if b < 10 else rnd.choice(["deep", "flat", "mixed", "deepest"])
+            if shape == "deepest":
+                # full 160-bit ids differing from the local id only in the last few bits, each under many addresses:
+                # the only way to split the table all the way down to 160 buckets
+                selfbits = "".join(rnd.choice("01") for _ in range(160))
+                ids = [selfbits] + [flip(selfbits, 159 - k) for k in range(4) for _ in range(3)] + [flip(flip(selfbits, 159), 157)]
+                ids += [flip(selfbits, rnd.randint(0, 150))[:rnd.randint(151, 160)].ljust(160, "0") for _ in range(6)]
+                addrs = ["a4:%d" % p for p in range(1, 14)] + ["r4:9", "d6:5"]
+                ops, known = [], []
+                for _ in range(depth):
+                    r = rnd.random()
+                    if r < 0.55:
+                        i, a = rnd.choice(ids[:14]), rnd.choice(addrs)
+                        ops.append({"op": rnd.choice(["good", "good", "good", "quest"]), "id": i, "addr": a})
+                        known.append((i, a))
+                    elif r < 0.65 and known:
+                        i, a = rnd.choice(known)
+                        ops.append({"op": rnd.choice(["local", "remote"]), "id": i, "addr": a})
+                    elif r < 0.85:
+                        ops.append({"op": "closest", "target": rnd.choice(ids)})
+                    else:
+                        ops.append({"op": "adv", "d": rnd.choice([1, 30000, 450000, 899999, 900000])})
+                f.write(json.dumps({"meta": {"bits": 160, "self": selfbits, "routers": ["r4:9"]}, "ops": ops}) + "\n")
+                continue
             selfbits = "".join(rnd.choice("01") for _ in range(24))
             ids = [selfbits]  # the local id itself (must never be admitted)
-            flip = lambda s, i: s[:i] + ("1" if s[i] == "0" else "0") + s[i + 1:]
             # ids sharing 0..20 leading bits with self; several per prefix length (to overflow buckets)
-            shape = rnd.choice(["deep", "flat", "mixed"])
             for _ in range(rnd.randint(20, 45)):
                 if shape == "deep":
                     p = rnd.randint(0, 20)
@@ -366,6 +396,34 @@ def table_pipeline(ctx, strict):
     with open(beh + ".1", "w") as f:
         for line in open(tmp):
             f.write(json.dumps({"meta": {"bits": 4, "self": 5, "routers": ["r4:9"]}, "ops": json.loads(line)}) + "\n")
+    # binding 1b: the life of ONE contact, exhaustively: every sequence of {it answers, we query it, it queries us, 15 min pass}
+    # up to depth 7 (quick) / 8 (thorough) -- the histories C10 quantifies over
+    life = """SPECIFICATION Spec
+CONSTANTS
+  K = 2
+  BITS = 4
+  SELF = 5
+  IDS = {13}
+  RIDS = {}
+  ADDRS = {"a4:1"}
+  ROUTERS = {}
+  DELTAS = {900000}
+  MAXSTEPS = %d
+  LowestFirst = TRUE
+  GEN = TRUE
+INVARIANT Emit
+INVARIANT ChecksOK
+CHECK_DEADLOCK FALSE
+""" % (7 if q else 8)
+    g3 = vlib.tlc("mc/MC_Table.tla", ctx.cfg("gen3.cfg", life), workers=1, timeout=1800)
+    if g3.inv_violated:
+        raise ToolError("MC_Table (single contact life) violated %s" % g3.inv_violated)
+    ctx.add_mc("MC_Table(single contact, depth=%d)" % (7 if q else 8), g3)
+    n3 = vlib.extract_replays(g3, beh + ".3raw")
+    with open(beh + ".1", "a") as f:
+        for line in open(beh + ".3raw"):
+            ops = [o for o in json.loads(line) if o.get("op") != "quest"]
+            f.write(json.dumps({"meta": {"bits": 4, "self": 5, "routers": []}, "ops": ops}) + "\n")
     # binding 2: production constants, seeded random long behaviours
     n2 = gen_table_random(beh + ".2", vlib.seed(), 25 if q else 300, 90 if q else 160)
     if n1 == 0:
@@ -410,8 +468,11 @@ def check_C08(ctx):
 
 
 def check_C09(ctx):
-    ctx.assumptions += TABLE_ASSUME + ["the handler's filter(family).take(8) composition is checked on the wire by the server traces (C05)"]
+    ctx.assumptions += TABLE_ASSUME
     table_pipeline(ctx, ["C09"])
+    # wire level: the node lists of real find_node / get_peers replies against the table dumped at that instant
+    parts, _ = run_node_scenarios(ctx, server_scenarios(ctx), ["C09"], "server")
+    node_verdict(ctx, parts, "server")
 
 
 def check_C10(ctx):
@@ -514,3 +575,280 @@ def check_C20(ctx):
     ctx.cov["samples"] = [l for l in vlib.head_lines(ctx.path("trace00.ndjson"), 4, 300)][1:]
     ctx.cov["exhaustive"] = False
     tv_verdict(ctx, tv, ctx.path("trace00.ndjson"), "bep42")
+
+
+# ============================================================================ node-level: server (C05 C12 C17 + wire C06 C07 C09)
+
+NODE_TV_CFG = """SPECIFICATION Spec
+CONSTANT StrictProps = {%s}
+POSTCONDITION Accepted
+CHECK_DEADLOCK FALSE
+"""
+
+
+def run_node_scenarios(ctx, scenarios, strict, tag):
+    """scenarios: list of (name, [vh node args]).  Record each on the real node(s), validate all in parallel."""
+    import concurrent.futures
+    vlib.build_harness()
+    cfg = ctx.cfg("nodetv-%s.cfg" % tag, NODE_TV_CFG % ", ".join('"%s"' % s for s in strict))
+
+    def one(sc):
+        name, args = sc
+        tr = ctx.path("%s-%s.ndjson" % (tag, name))
+        rc, out = vlib.vh(["node"] + args + ["--out", tr], timeout=1800, allow_fail=True)
+        crashed = rc != 0
+        if crashed:
+            # a panic / abort of the code under test is data, not a tool error: validate what was recorded
+            log("[%s] harness exited with %d (node crashed?):\n%s" % (name, rc, out[-800:]))
+        if not os.path.exists(tr) or os.path.getsize(tr) == 0:
+            raise ToolError("scenario %s produced no trace:\n%s" % (name, out[-2000:]))
+        tv = vlib.validate_trace("trace/NodeTrace.tla", cfg, tr, timeout=3000, heap="6g")
+        tv.trace_file = tr
+        tv.crashed = crashed
+        tv.name = name
+        return tv
+
+    with concurrent.futures.ThreadPoolExecutor(max_workers=min(8, len(scenarios))) as ex:
+        parts = list(ex.map(one, scenarios))
+    known = set()
+    for p in parts:
+        for k in p.res.printed("KNOWNFINDING"):
+            known.add(k)
+        ctx.add_tv(p.name, p, 1, 1)
+    return parts, known
+
+
+def node_verdict(ctx, parts, what):
+    ok = True
+    for p in parts:
+        if getattr(p, "crashed", False) and p.accepted:
+            # the harness died but every recorded line was consistent with this property
+            log("[%s] node process died; the recorded prefix satisfies %s" % (p.name, ctx.pid))
+        if not p.accepted:
+            ok = False
+            tv_verdict(ctx, p, p.trace_file, "%s-%s" % (what, p.name))
+    return ok
+
+
+def handle_known_findings(ctx, known):
+    """KNOWNFINDING lines printed by the trace specification are matched against known_findings.json."""
+    kf = vlib.known_findings()
+    listed = [f for f in kf.get("findings", []) if f.get("property") == ctx.pid]
+    if not known:
+        return
+    classes = set()
+    for k in known:
+        m = re.search(r'"KNOWNFINDING",\s*"(\w+)",\s*"([^"]+)"', k)
+        if m and m.group(1) == ctx.pid:
+            classes.add(m.group(2))
+    for c in sorted(classes):
+        hit = [f for f in listed if f.get("class") == c]
+        if hit:
+            ctx.known.append("%s (%d occurrences this run)" % (hit[0]["what"], sum(1 for k in known if c in k)))
+        else:
+            # a finding class the file does not list is a violation like any other
+            ctx.violation("unlisted finding class %s" % c, vlib.save_replay(ctx.pid, "unlisted-%s.txt" % c, content="\n".join(sorted(known))))
+
+
+def server_scenarios(ctx):
+    s = vlib.seed()
+    q = ctx.quick
+    sc = [("v4", ["--scenario", "server", "--seed", str(s), "--nq", "500" if q else "2500", "--fat", "190"]),
+          ("v6", ["--scenario", "server", "--seed", str(s + 1), "--fam", "6", "--nq", "300" if q else "1500", "--fat", "70"]),
+          ("ro", ["--scenario", "server", "--seed", str(s + 2), "--ro", "1", "--nq", "150" if q else "600"])]
+    if not q:
+        sc += [("v4b", ["--scenario", "server", "--seed", str(s + 3), "--nq", "2500", "--fat", "500"]),
+               ("v6b", ["--scenario", "server", "--seed", str(s + 4), "--fam", "6", "--nq", "1500", "--fat", "200"])]
+    return sc
+
+
+SERVER_ASSUME = [
+    "TLC is correct; the harness' own bencode reader (harness/src/benc.rs) describes datagrams faithfully",
+    "hooks H1 (clock) and H3 (step brackets, table dump) report after the state change inside the single handler task",
+    "the simulated network (SocketTrait implementation) stands for UDP; single-threaded runtime on the paused clock",
+]
+
+
+def node_stats(ctx, parts):
+    n = 0
+    kinds = {}
+    for p in parts:
+        for line in open(p.trace_file):
+            n += 1
+            m = re.search(r'"ev":"(\w+)"', line)
+            if m:
+                kinds[m.group(1)] = kinds.get(m.group(1), 0) + 1
+    ctx.cov["event_counts"] = kinds
+    ctx.cov["evaluations"] = n
+    return n, kinds
+
+
+def check_C05(ctx):
+    ctx.assumptions += SERVER_ASSUME
+    parts, known = run_node_scenarios(ctx, server_scenarios(ctx), ["C05"], "server")
+    n, kinds = node_stats(ctx, parts)
+    ctx.cov["distinct_nontrivial"] = kinds.get("Recv", 0)
+    ctx.cov["rule"] = ("recorded executions of real nodes (serving v4, serving v6, read-only) receiving seeded random queries of every kind / "
+                       "want / port / token / transaction-id (0..32 bytes) combination interleaved with responses, errors, garbage and time; "
+                       "a case = one received datagram (its handler step is checked by TLC)")
+    ctx.cov["samples"] = vlib.head_lines(parts[0].trace_file, 40, 400)[-3:]
+    node_verdict(ctx, parts, "server")
+
+
+def check_C12(ctx):
+    ctx.assumptions += SERVER_ASSUME + ["'a prefix the node never used' = not the prefix of any query this node has sent so far (observed on the wire)"]
+    parts, known = run_node_scenarios(ctx, server_scenarios(ctx), ["C12"], "server")
+    n, kinds = node_stats(ctx, parts)
+    ctx.cov["distinct_nontrivial"] = kinds.get("HEnd", 0)
+    ctx.cov["rule"] = ("recorded executions of real nodes receiving unsolicited queries and responses (random / short / long / stale "
+                       "transaction ids, node lists naming the node's own id); after EVERY handler step the dumped table is compared "
+                       "with the one before: a case = one handler step")
+    ctx.cov["samples"] = vlib.head_lines(parts[0].trace_file, 60, 300)[-3:]
+    node_verdict(ctx, parts, "server")
+
+
+def check_C17(ctx):
+    ctx.assumptions += SERVER_ASSUME + ["the recorded finding class (get_peers reply too long only because of `values`) is reported as KNOWN-FINDING, any other oversize datagram is a violation"]
+    parts, known = run_node_scenarios(ctx, server_scenarios(ctx), ["C17"], "server")
+    n, kinds = node_stats(ctx, parts)
+    ctx.cov["distinct_nontrivial"] = kinds.get("Send", 0)
+    ctx.cov["rule"] = ("every datagram sent by real nodes in the server scenarios (queries, replies, errors; 0..190 peers on one info-hash, "
+                       "both families, all want combinations, transaction ids up to 32 bytes): a case = one sent datagram, its length "
+                       "is checked by TLC against 1500")
+    ctx.cov["samples"] = [l for l in vlib.head_lines(parts[0].trace_file, 400, 300) if '"Send"' in l][:3]
+    handle_known_findings(ctx, known)
+    node_verdict(ctx, parts, "server")
+
+
+# =========================================================================================== C13
+
+def check_C13(ctx):
+    ctx.level = "model_checking"
+    ctx.assumptions += [
+        "spec/Wire.tla is a faithful transcription of BEP3/5/32 (pinned by ASSUME to the BEP5 example messages)",
+        "the harness' own bencode reader/writer (benc.rs) produces the key-permuted / unknown-key / ill-formed variants faithfully",
+        "TLC evaluates Wire!Encode on every recorded message; agreement on the cases explored, not a proof over the input space",
+    ]
+    q = ctx.quick
+    # spec -> impl: every message of the enumerated shape space (MC_Wire) through the real encoder / decoder
+    g = vlib.tlc("mc/MC_Wire.tla", "mc/MC_Wire.cfg", workers=1, timeout=1200)
+    vlib.require_mc_ok(g, "MC_Wire")
+    ctx.add_mc("MC_Wire(enumerated shape space)", g)
+    beh = ctx.path("msgs.ndjson")
+    n1 = vlib.extract_replays(g, beh)
+    ctx.cov["states"] = max(ctx.cov["states"], n1)
+    if n1 < 1000:
+        raise ToolError("MC_Wire enumerated only %d messages" % n1)
+    t1 = ctx.path("wire-enum.ndjson")
+    vlib.vh(["wire", "--in", beh, "--out", t1, "--seed", str(vlib.seed())])
+    # impl -> spec: seeded random messages over the whole field space with permuted / unknown-key / ill-formed variants
+    t2 = ctx.path("wire-rand.ndjson")
+    n2 = 700 if q else 6000
+    vlib.vh(["wire", "--out", t2, "--n", str(n2), "--seed", str(vlib.seed())])
+    import concurrent.futures
+    def val(tr):
+        parts = split_lines(tr, 6 if q else 14)
+        with concurrent.futures.ThreadPoolExecutor(max_workers=len(parts)) as ex:
+            res = list(ex.map(lambda f: _tv_file("trace/WireTrace.tla", "trace/WireTrace.cfg", f), parts))
+        return vlib.TvMulti(res, sum(p.nlines for p in res), max(p.res.wall for p in res))
+    tv1, tv2 = val(t1), val(t2)
+    ndec = sum(1 for t in (t1, t2) for line in open(t) if '"ev":"Dec"' in line)
+    ctx.add_tv("wire-enumerated", tv1, n1, n1)
+    ctx.add_tv("wire-random", tv2, n2, n2)
+    ctx.cov["evaluations"] = n1 + n2 + ndec
+    ctx.cov["distinct_nontrivial"] = n1 + n2
+    ctx.cov["rule"] = ("%d messages enumerated by TLC from mc/MC_Wire.tla (every kind x adversarial field domains) plus %d seeded random "
+                       "messages over the whole field space; each is encoded by the real encoder (bytes compared with Wire!Encode by TLC) "
+                       "and decoded from its canonical, key-permuted and unknown-key encodings (%d decodes compared with the expected "
+                       "message), ill-formed variants must be rejected" % (n1, n2, ndec))
+    ctx.cov["samples"] = vlib.head_lines(t2, 3, 500)[1:]
+    tv_verdict(ctx, tv1, t1, "wire-enumerated")
+    tv_verdict(ctx, tv2, t2, "wire-random")
+
+
+def split_lines(path, nparts):
+    """Split a trace whose lines are independent cases into nparts files, each starting with a Reset line."""
+    lines = open(path).read().splitlines(True)
+    body = [ln for ln in lines if '"ev":"Reset"' not in ln and '"ev":"End"' not in ln]
+    per = max(1, (len(body) + nparts - 1) // nparts)
+    files = []
+    for k in range(0, len(body), per):
+        p = "%s.part%02d" % (path, len(files))
+        with open(p, "w") as f:
+            f.write('{"ev":"Reset","t":0}\n')
+            f.writelines(body[k:k + per])
+        files.append(p)
+    # the End line (vacuity guard) goes with the whole-file counts only: append to the last part a synthetic check-free end
+    return files
+
+
+def _tv_file(tla, cfg, f):
+    tv = vlib.validate_trace(tla, cfg, f, timeout=3000, heap="3g")
+    tv.trace_file = f
+    return tv
+
+
+# =========================================================================================== C14
+
+def check_C14(ctx):
+    ctx.level = "fault_enumeration"
+    ctx.assumptions += [
+        "memory safety and resource use cannot be proved by a TLA+ specification: this is supervised execution of a structure-aware "
+        "mutation corpus (the operators of DESIGN §3.2) plus seeded random mutations; fault enumeration, not proof",
+        "limits: no panic / abort / stack overflow on a 2 MiB stack; no single allocation request above 64 KiB and no peak above 1 MiB "
+        "for a datagram of at most 1500 bytes",
+        "node level: the recorded trace of a real node under flood is validated by TLC (spec/trace/NodeTrace.tla)",
+    ]
+    q = ctx.quick
+    vlib.build_harness()
+    corpus = ctx.path("corpus.hex")
+    vlib.vh(["corpus", "--out", corpus, "--n", "3000" if q else "60000", "--seed", str(vlib.seed())])
+    lines = open(corpus).read().split()
+    # 1. decode worker under supervision
+    import subprocess
+    pos = 0
+    results = 0
+    distinct = len(set(lines))
+    deaths = []
+    limit_viol = []
+    while pos < len(lines):
+        p = subprocess.run([vlib.VH, "decode"], input="\n".join(lines[pos:]) + "\n", capture_output=True, text=True, timeout=1800)
+        outs = [json.loads(x) for x in p.stdout.splitlines() if x.startswith("{")]
+        for r in outs:
+            results += 1
+            if r.get("panic") or r.get("big", 0) > 65536 or r.get("peak", 0) > 1048576:
+                limit_viol.append((pos + r["i"], r))
+        if p.returncode == 0 and len(outs) >= len(lines) - pos:
+            break
+        # the worker died on datagram pos + len(outs)
+        bad = pos + len(outs)
+        deaths.append((bad, p.returncode, p.stderr[-300:]))
+        pos = bad + 1
+        if len(deaths) > 20:
+            break
+    for bad, rc, err in deaths[:3]:
+        path = vlib.save_replay(ctx.pid, "decode-death-%d.hex" % bad, content=lines[bad] + "\n")
+        ctx.violation("decoding datagram #%d (%d bytes) killed the process (exit %s): %s" % (bad, len(lines[bad]) // 2, rc, err.strip()[-160:]), path)
+    for idx, r in limit_viol[:3]:
+        path = vlib.save_replay(ctx.pid, "decode-limit-%d.hex" % idx, content=lines[idx] + "\n")
+        ctx.violation("decoding datagram #%d: %s" % (idx, json.dumps(r)), path)
+    ctx.cov["evaluations"] = results
+    ctx.cov["distinct_nontrivial"] = distinct
+    ctx.cov["decode_worker"] = {"datagrams": len(lines), "decoded_or_rejected": results, "deaths": len(deaths), "limit_violations": len(limit_viol)}
+    # 2. node level: flood a real serving node, then it must still serve and complete every API call
+    small = ctx.path("corpus-node.hex")
+    with open(small, "w") as f:
+        step = max(1, len(lines) // (1500 if q else 6000))
+        f.write("\n".join(lines[::step]) + "\n")
+    parts, _ = run_node_scenarios(ctx, [("flood", ["--scenario", "flood", "--corpus", small, "--seed", str(vlib.seed())])], ["C14", "C05"], "flood")
+    for p in parts:
+        if p.crashed:
+            ctx.violation("the node process died while receiving the datagram sequence", vlib.save_replay(ctx.pid, "flood-crash.ndjson", src_path=p.trace_file))
+        elif not any('"ev":"End"' in l for l in open(p.trace_file)):
+            ctx.violation("the flood scenario did not run to its end (node hung)", vlib.save_replay(ctx.pid, "flood-hang.ndjson", src_path=p.trace_file))
+    node_verdict(ctx, parts, "flood")
+    ctx.cov["rule"] = ("datagrams = 12 seed messages x (truncation at every offset, every length prefix x 23 magnitudes up to 2^128, every "
+                       "integer x 17 limit values, every tree position x 8 wrong-type values) + nesting depths 1..1500 (lists, dicts, closed / "
+                       "unclosed, bare / inside a valid message) + %s seeded random flips/splices; each decoded by the real decoder in a "
+                       "supervised worker; distinct by content" % ("3000" if q else "60000"))
+    ctx.cov["samples"] = [lines[1][:120], lines[len(lines) // 2][:120], "d1:t99999999999: (hex 64313a7439393939393939393939393a)"]
